@@ -4,7 +4,10 @@ go 1.25.5
 
 require (
 	github.com/pkg/errors v0.9.1
+	github.com/pquerna/otp v1.4.0
 	github.com/ysugimoto/falco/v2 v2.0.0
+	go.elara.ws/pcre v0.0.0-20230805032557-4ce849193f64
+	gopkg.in/yaml.v3 v3.0.1
 	pgregory.net/rapid v1.3.0
 )
 
@@ -21,11 +24,9 @@ require (
 	github.com/mattn/go-isatty v0.0.12 // indirect
 	github.com/pierrec/xxHash v0.1.5 // indirect
 	github.com/pion/dtls/v2 v2.2.12 // indirect
-	github.com/pquerna/otp v1.4.0 // indirect
 	github.com/remyoudompheng/bigfft v0.0.0-20200410134404-eec4a21b6bb0 // indirect
 	github.com/rs/xid v1.5.0 // indirect
 	github.com/ysugimoto/twist v0.10.2 // indirect
-	go.elara.ws/pcre v0.0.0-20230805032557-4ce849193f64 // indirect
 	golang.org/x/sync v0.12.0 // indirect
 	golang.org/x/sys v0.31.0 // indirect
 	modernc.org/libc v1.17.0 // indirect
